@@ -1,4 +1,6 @@
-package props
+// Package pt is the shared property-test runtime: run statistics, the rapid/replay runner,
+// worker helpers. Property packages (c01, c02, ...) import it; the driver merges the statistics.
+package pt
 
 import (
 	"crypto/sha256"
@@ -11,7 +13,6 @@ import (
 	"strconv"
 	"sync"
 	"testing"
-	"time"
 
 	"pgregory.net/rapid"
 
@@ -43,7 +44,7 @@ type failureRec struct {
 var stats = &runStats{NonTrivial: map[string]bool{}, Classes: map[string]int{}, Counters: map[string]int64{},
 	Known: map[string]int{}, KnownSample: map[string]json.RawMessage{}, Maxes: map[string]int64{}}
 
-func writeStats() {
+func WriteStats() {
 	path := os.Getenv("VERIF_STATS")
 	if path == "" {
 		return
@@ -55,7 +56,7 @@ func writeStats() {
 }
 
 // obs is the per-case observation handle passed to check functions.
-type obs struct {
+type Obs struct {
 	classes    []string
 	nontrivial bool
 	known      []string
@@ -63,16 +64,16 @@ type obs struct {
 	maxes      map[string]int64
 }
 
-func (o *obs) Class(c string)         { o.classes = append(o.classes, c) }
-func (o *obs) NonTrivial()            { o.nontrivial = true }
-func (o *obs) Known(id string)        { o.known = append(o.known, id) }
-func (o *obs) Count(k string, n int64) {
+func (o *Obs) Class(c string)  { o.classes = append(o.classes, c) }
+func (o *Obs) NonTrivial()     { o.nontrivial = true }
+func (o *Obs) Known(id string) { o.known = append(o.known, id) }
+func (o *Obs) Count(k string, n int64) {
 	if o.counters == nil {
 		o.counters = map[string]int64{}
 	}
 	o.counters[k] += n
 }
-func (o *obs) Max(k string, n int64) {
+func (o *Obs) Max(k string, n int64) {
 	if o.maxes == nil {
 		o.maxes = map[string]int64{}
 	}
@@ -86,7 +87,7 @@ func caseHash(b []byte) string {
 	return hex.EncodeToString(h[:8])
 }
 
-func (s *runStats) record(caseJSON []byte, o *obs) {
+func (s *runStats) record(caseJSON []byte, o *Obs) {
 	s.mu.Lock()
 	defer s.mu.Unlock()
 	s.Evaluations++
@@ -123,26 +124,26 @@ func (s *runStats) record(caseJSON []byte, o *obs) {
 }
 
 // inconclusive is returned by a check that could not decide (time budget, environment).
-type inconclusive struct{ msg string }
+type Inconclusive struct{ msg string }
 
-func (e *inconclusive) Error() string { return "INCONCLUSIVE: " + e.msg }
+func (e *Inconclusive) Error() string { return "INCONCLUSIVE: " + e.msg }
 
-func inconclusivef(f string, a ...interface{}) error { return &inconclusive{fmt.Sprintf(f, a...)} }
+func Inconclusivef(f string, a ...interface{}) error { return &Inconclusive{fmt.Sprintf(f, a...)} }
 
 // ---- property runner ------------------------------------------------------------------------
 
-func tier() string {
+func Tier() string {
 	if v := os.Getenv("VERIF_TIER"); v != "" {
 		return v
 	}
 	return "quick"
 }
 
-func thorough() bool { return tier() == "thorough" }
+func Thorough() bool { return Tier() == "thorough" }
 
 // scale returns q in the quick tier and th in the thorough tier.
-func scale(q, th int) int {
-	if thorough() {
+func Scale(q, th int) int {
+	if Thorough() {
 		return th
 	}
 	return q
@@ -157,9 +158,9 @@ func replayOutPath(id string) string {
 
 // runProp drives one property: either replays a saved case (VERIF_REPLAY) or runs rapid.
 // gen must draw everything from t; check must be a pure function of (code under test, case).
-func runProp[C any](t *testing.T, id string, gen func(*rapid.T) C, check func(C, *obs) error) {
+func RunProp[C any](t *testing.T, id string, gen func(*rapid.T) C, check func(C, *Obs) error) {
 	stats.Property = id
-	defer writeStats()
+	defer WriteStats()
 	if rp := os.Getenv("VERIF_REPLAY"); rp != "" {
 		b, err := os.ReadFile(rp)
 		if err != nil {
@@ -176,11 +177,11 @@ func runProp[C any](t *testing.T, id string, gen func(*rapid.T) C, check func(C,
 		if err := json.Unmarshal(env.Case, &c); err != nil {
 			t.Fatalf("bad replay case: %v", err)
 		}
-		o := &obs{}
+		o := &Obs{}
 		err = check(c, o)
 		stats.record(env.Case, o)
 		if err != nil {
-			if _, ok := err.(*inconclusive); ok {
+			if _, ok := err.(*Inconclusive); ok {
 				stats.Inconcl = append(stats.Inconcl, err.Error())
 				t.Skip(err.Error())
 			}
@@ -195,10 +196,10 @@ func runProp[C any](t *testing.T, id string, gen func(*rapid.T) C, check func(C,
 	rapid.Check(t, func(rt *rapid.T) {
 		c := gen(rt)
 		cj, _ := json.Marshal(c)
-		o := &obs{}
+		o := &Obs{}
 		err := check(c, o)
 		if err != nil {
-			if inc, ok := err.(*inconclusive); ok {
+			if inc, ok := err.(*Inconclusive); ok {
 				stats.mu.Lock()
 				stats.Inconcl = append(stats.Inconcl, inc.Error())
 				stats.mu.Unlock()
@@ -237,7 +238,7 @@ func workRoot() string {
 }
 
 // newDataDir returns a fresh directory path for one case.
-func newDataDir() string {
+func NewDataDir() string {
 	workMu.Lock()
 	workSeq++
 	n := workSeq
@@ -247,15 +248,15 @@ func newDataDir() string {
 	return filepath.Join(root, fmt.Sprintf("p%d-%d", os.Getpid(), n), "data")
 }
 
-func cleanupDataDir(dataDir string) {
+func CleanupDataDir(dataDir string) {
 	_ = os.RemoveAll(filepath.Dir(dataDir))
 }
 
 // withWorker starts a fresh worker on a fresh directory, runs fn, and cleans up.
-func withWorker(opts sut.Options, fn func(c *sut.Client) error) error {
+func WithWorker(opts sut.Options, fn func(c *sut.Client) error) error {
 	if opts.DataDir == "" {
-		opts.DataDir = newDataDir()
-		defer cleanupDataDir(opts.DataDir)
+		opts.DataDir = NewDataDir()
+		defer CleanupDataDir(opts.DataDir)
 	}
 	if opts.Env == nil {
 		opts.Env = map[string]string{}
@@ -265,14 +266,14 @@ func withWorker(opts sut.Options, fn func(c *sut.Client) error) error {
 	}
 	c, err := sut.Start(opts)
 	if err != nil {
-		return inconclusivef("worker start: %v", err)
+		return Inconclusivef("worker start: %v", err)
 	}
 	defer c.Close()
 	return fn(c)
 }
 
 // crashDetail formats what is known about a dead worker.
-func crashDetail(c *sut.Client) string {
+func CrashDetail(c *sut.Client) string {
 	se := c.Stderr()
 	if len(se) > 3000 {
 		se = se[:3000]
@@ -280,12 +281,12 @@ func crashDetail(c *sut.Client) string {
 	return fmt.Sprintf("exit=%s stderr:\n%s", c.ExitInfo(), se)
 }
 
-func seedFromEnv() int64 {
+func SeedFromEnv() int64 {
 	v, _ := strconv.ParseInt(os.Getenv("VERIF_SEED"), 10, 64)
 	return v
 }
 
-func sortedKeys[V any](m map[string]V) []string {
+func SortedKeys[V any](m map[string]V) []string {
 	out := make([]string, 0, len(m))
 	for k := range m {
 		out = append(out, k)
@@ -294,4 +295,94 @@ func sortedKeys[V any](m map[string]V) []string {
 	return out
 }
 
-var _ = time.Now
+// Main is the TestMain body of every property package: a test binary started with
+// VERIF_WORKER=1 becomes the system-under-test worker instead of running tests.
+func Main(m *testing.M) {
+	if os.Getenv(sut.WorkerEnv) == "1" {
+		sut.RunWorker()
+		return
+	}
+	code := m.Run()
+	WriteStats()
+	os.Exit(code)
+}
+
+// RunCases drives a property over an explicit (enumerated or hand-rolled) sequence of cases
+// instead of rapid: next returns the i-th case or ok=false. A replay file (VERIF_REPLAY) runs
+// only the saved case. The first failing case is written as the replay file and fails the test.
+func RunCases[C any](t *testing.T, id string, next func(i int) (C, bool), check func(C, *Obs) error) {
+	stats.Property = id
+	defer WriteStats()
+	if rp := os.Getenv("VERIF_REPLAY"); rp != "" {
+		b, err := os.ReadFile(rp)
+		if err != nil {
+			t.Fatalf("cannot read replay file: %v", err)
+		}
+		var env replayEnvelope
+		if err := json.Unmarshal(b, &env); err != nil {
+			t.Fatalf("bad replay file: %v", err)
+		}
+		if env.Test != "" && env.Test != t.Name() {
+			t.Skipf("replay file is for %s", env.Test)
+		}
+		var c C
+		if err := json.Unmarshal(env.Case, &c); err != nil {
+			t.Fatalf("bad replay case: %v", err)
+		}
+		o := &Obs{}
+		err = check(c, o)
+		stats.record(env.Case, o)
+		if err != nil {
+			if _, ok := err.(*Inconclusive); ok {
+				t.Skip(err.Error())
+			}
+			stats.Failures = append(stats.Failures, failureRec{Msg: err.Error(), Replay: rp})
+			t.Fatalf("REPLAY-FAIL %s: %v", id, err)
+		}
+		return
+	}
+	out := replayOutPath(id)
+	_ = os.Remove(out)
+	for i := 0; ; i++ {
+		c, ok := next(i)
+		if !ok {
+			return
+		}
+		cj, _ := json.Marshal(c)
+		o := &Obs{}
+		err := check(c, o)
+		if err != nil {
+			if inc, ok := err.(*Inconclusive); ok {
+				stats.mu.Lock()
+				stats.Inconcl = append(stats.Inconcl, inc.Error())
+				stats.mu.Unlock()
+				continue
+			}
+			env := replayEnvelope{Property: id, Test: t.Name(), Msg: err.Error(), Case: cj}
+			eb, _ := json.MarshalIndent(env, "", " ")
+			_ = os.WriteFile(out, eb, 0o644)
+			stats.Failures = append(stats.Failures, failureRec{Msg: err.Error(), Replay: out})
+			t.Fatalf("%s violated: %v", id, err)
+		}
+		stats.record(cj, o)
+	}
+}
+
+// Shard returns this process's shard index and the shard count (driver-provided).
+func Shard() (int, int) {
+	s, _ := strconv.Atoi(os.Getenv("VERIF_SHARD"))
+	n, _ := strconv.Atoi(os.Getenv("VERIF_SHARDS"))
+	if n <= 0 {
+		n = 1
+	}
+	return s, n
+}
+
+// Cases returns the number of cases this shard was asked to run (non-rapid tests).
+func Cases(def int) int {
+	n, err := strconv.Atoi(os.Getenv("VERIF_CASES"))
+	if err != nil || n <= 0 {
+		return def
+	}
+	return n
+}
